@@ -60,6 +60,15 @@ def make_case(seed: int, tier: str, prop: str, opts=None) -> Dict[str, Any]:
         # the same faults in real-time mode (poll timers race with the shutdown)
         sc["config"]["rt_factor"] = rng.choice([0.02, 0.05, 0.2])
         sc["until"] = min(sc["until"], 3)
+    has_agents = any(s.get("stub") == "async" for s in sc["sims"])
+    if rng.random() < (0.45 if has_agents else 0.15) and not sc["config"].get("rt_factor"):
+        # one simulator whose every reply takes very long (it is healthy, just slow): when another one
+        # fails, nothing may wait for the replies it still owes - e.g. the reply to a get_data request that
+        # an agent has made from inside its step
+        slow_sid = rng.choice(sc["sims"])["sid"]
+        if has_agents and rng.random() < 0.6:
+            slow_sid = sc["sims"][0]["sid"]          # the plant
+        sp["slow"] = {"sid": slow_sid, "delay": 30.0}
     return {"scenario": sc, "schedule": sp, "sample_seed": seed,
             "max_points": (10 if tier == "quick" else None),
             "double": (1 if tier == "quick" else 8)}
@@ -144,9 +153,16 @@ def check_one(sc, sp, f, last_req=None, f2=None):
                              if hist[i][0] in ("issue", "done_exc") and hist[i][2] == sid), None)
         bound = None if q_notice is None else \
             vt[q_notice] + len(sc["sims"]) * (0.1 + 2 * max_latency(sp)) + 1.0
-        if bound is not None and vt[q_ret] > bound:
+        if bound is not None and sp.get("slow") and sp["slow"]["sid"] in faulty:
+            bound += 2 * sp["slow"]["delay"]         # (the failure itself travels on the slow link)
+        # (run() returns when mosaik has closed its event loop; what the simulated universe does after
+        # that - the post-mortem drain of the DetLoop - is not mosaik's time)
+        t_ret = r.world_info.get("close_vtime")
+        if t_ret is None:
+            t_ret = vt[q_ret]
+        if bound is not None and t_ret > bound:
             viols.append({"kind": "run_not_prompt", "features": feats,
-                          "detail": {"fault": f, "t_fault": vt[qf], "t_return": vt[q_ret], "bound": bound}})
+                          "detail": {"fault": f, "t_fault": vt[qf], "t_return": t_ret, "bound": bound}})
     # (2) error or logged remote error
     is_last = last_req is not None and f["kind"] in ("kill_after_reply", "reset_after_reply") and \
         f["req"] >= last_req.get(sid, 1 << 30)
